@@ -26,6 +26,13 @@ Theorem C12_persisted_text_roundtrip : forall l,
 Proof. exact expand_compact_text. Qed.
 Print Assumptions C12_persisted_text_roundtrip.
 
+(* compact_sequence sorts: in whatever order, and however often, the keys are handed over, what comes back
+   is their set in ascending order *)
+Theorem C12_persisted_text_any_order : forall l, Forall (fun x => 0 <= x) l ->
+  expand_text (compact_text l) = Some (sorted_set l).
+Proof. exact expand_compact_text_any. Qed.
+Print Assumptions C12_persisted_text_any_order.
+
 Theorem C12_persisted_text_injective : forall l1 l2,
   StronglySorted Z.lt l1 -> Forall (fun x => 0 <= x) l1 ->
   StronglySorted Z.lt l2 -> Forall (fun x => 0 <= x) l2 ->
@@ -49,6 +56,12 @@ Theorem C12_reachable_uid_lists_persist : forall ps pn pd ops n b,
   expand_text (compact_text (uids b)) = Some (uids b).
 Proof. exact reachable_uid_lists_persist. Qed.
 Print Assumptions C12_reachable_uid_lists_persist.
+
+Theorem C12_reachable_key_lists_persist : forall ps pn pd ops n b,
+  get_box (fst (run (init_world ps pn pd) ops)) n = Some b ->
+  expand_text (compact_text (map m_key (b_msgs b))) = Some (map m_key (b_msgs b)).
+Proof. exact reachable_key_lists_persist. Qed.
+Print Assumptions C12_reachable_key_lists_persist.
 
 (* UID lists are strictly ascending in every reachable world (C02), so the round trip applies *)
 Theorem C12_restart_keeps_mailboxes : forall w n b,
